@@ -68,6 +68,7 @@ class Recorder:
         self.n = 0
         self.saved = {}
         self.outside = []
+        self.half_write = False     # a crashing write(2) stores the first half of its data
 
     def rel(self, p):
         p = os.fspath(p)
@@ -210,7 +211,8 @@ class _WFile:
         k = R.n
         R.n += 1
         if R.crash_at == k:
-            self._fh.write(data[: len(data) // 2])
+            if R.half_write:
+                self._fh.write(data[: len(data) // 2])
             R.crashed = True
             raise Crash()
         rec = ["write", self._rel, data.hex()]
@@ -555,18 +557,54 @@ def make_cset(sb, entries, prefix=""):
 
 # ---------------------------------------------------------------------------------------------- oracles
 
+def _literal_link(pre_snap, symlocs, p, fuel=8):
+    """the symlink at path tuple `p` resolves the same way for the kernel and for the literal walk of the model:
+    its (relative) target never passes *through* a symlink, and neither do the links it may lead to"""
+    if fuel == 0:
+        return False
+    nd = pre_snap.get(p)
+    if nd is None or nd["k"] != "sym":
+        return True
+    t = nd["target"]
+    if t.startswith("/"):
+        return t.startswith("/nonexistent-verif")
+    cur = p[:-1]
+    comps = t.split("/")
+    for n, c in enumerate(comps):
+        here = pre_snap.get(cur)
+        if cur in symlocs or (here is not None and here["k"] == "sym"):
+            return False                      # walks through a link
+        if here is None or here["k"] != "dir":
+            return True                       # the walk stops here for both: dangling
+        if c in ("", "."):
+            continue
+        if c == "..":
+            if not cur:
+                return True                   # leaves the tree: dangling for both (the parent holds nothing of that name)
+            cur = cur[:-1]
+        else:
+            cur = cur + (c,)
+    if cur in symlocs:
+        return False
+    return _literal_link(pre_snap, symlocs, cur, fuel - 1)
+
+
 def has_symlinked_ancestor(pre_snap, entries):
-    """literal-path scope of the Lean model: no entry location runs through (or, for a directory entry, sits on) a
-    symlink that resolves to a directory; absolute targets must dangle"""
+    """literal-path scope of the Lean model: no entry location runs *through* a symlink; a directory entry may sit
+    on a symlink only if that link resolves identically for the kernel and for the model's literal walk"""
     symlocs = {tuple(e["p"]) for e in entries if e["k"] == "sym"}
     for e in entries:
         p = tuple(e["p"])
-        for i in range(1, len(p) + (1 if e["k"] == "dir" else 0)):
+        for i in range(1, len(p)):
             nd = pre_snap.get(p[:i])
             if nd is not None and nd["k"] == "sym":
                 return True
-            if i < len(p) and p[:i] in symlocs:
+            if p[:i] in symlocs:
                 return True                # (ill-formed contents) an entry below a symlink entry of the same set
+        # `os.path.exists(dirname)` / `os.stat(location)` follow a link at the final component
+        for q in ([p] if e["k"] == "dir" else []) + ([p[:-1]] if len(p) > 1 else []):
+            if not _literal_link(pre_snap, symlocs, q):
+                return True
     return False
 
 
